@@ -180,3 +180,29 @@ def body_cdecay_names(sel: int) -> bool:
     if got != exp:
         return fail(f"CDecay: daughter {n!r} (id {i}) conjugated to {got[0]!r}, expected {exp[0]!r}")
     return True
+
+
+def body_cdecay_mother(sel: int) -> bool:
+    """CDecay <name> for every EvtGen name that has a distinct antiparticle: the table of the conjugate is found and conjugated"""
+    n = EVT_NAMES[sel]
+    import re
+    from harness.c06 import MODELS
+    from harness.c04 import oracle_evtgen
+    if re.match(r"[+-]?(\d|\.\d)", n) or n in MODELS or n == "PHOTOS":
+        return True
+    c = oracle_evtgen(n)
+    text = f"Decay {c}\n0.75 K+ pi- PHSP;\n0.25 gamma K_S0 PHOTOS VSS;\nEnddecay\nCDecay {n}\n" if not c.startswith("ChargeConj(") else \
+        f"Decay {n}bar\n1.0 K+ pi- PHSP;\nEnddecay\nCDecay {n}\n"
+    p = parse(text)
+    names = p.list_decay_mother_names()
+    if c.startswith("ChargeConj(") or c == n:
+        # no known antiparticle / self-conjugate: nothing may be created under a guessed name
+        if names.count(n) > (1 if c == n else 0):
+            return fail(f"CDecay {n!r} (conjugate {c!r}) created a table: {names}")
+        return True
+    if names != [c, n]:
+        return fail(f"CDecay {n!r}: mothers {names}, expected {[c, n]}")
+    exp = [{"bf": 0.75, "fs": ["K-", "pi+"], "model": "PHSP", "model_params": ""}, {"bf": 0.25, "fs": ["gamma", "K_S0"], "model": "PHOTOS VSS", "model_params": ""}]
+    if details(p, n) != exp:
+        return fail(f"CDecay {n!r}: {details(p, n)}")
+    return True
